@@ -933,10 +933,13 @@ class DestHandler:
             self._params.acked_params.last_start_offset = offset
             self._params.acked_params.last_end_offset = offset + data_len
         if offset + data_len <= self._params.acked_params.last_start_offset:
-            # Might be a re-requested FD PDU.
-            self._params.acked_params.lost_seg_tracker.remove_lost_segment(
-                (offset, offset + data_len)
-            )
+            # Might be a re-requested FD PDU. It can cover several lost segments, or only parts of
+            # them: remove what it covers of each.
+            end_offset = offset + data_len
+            tracker = self._params.acked_params.lost_seg_tracker
+            for seg_start, seg_end in list(tracker.lost_segments.items()):
+                if seg_start < end_offset and offset < seg_end:
+                    tracker.remove_lost_segment((max(seg_start, offset), min(seg_end, end_offset)))
 
     def _deferred_lost_segment_handling(self) -> None:
         if not self._params.acked_params.deferred_lost_segment_detection_active:
